@@ -302,11 +302,33 @@ func unquote(text string) string {
 	if text[0] == '\'' {
 		// Unquote 内部假定单引号括起的都是单个字符
 		// 我们允许单引号括起字符串 这里兼容一下 转为双引号
-		text = strings.ReplaceAll(text, "\\'", "'")
-		text = `"` + text[1:len(text)-1] + `"`
+		text = `"` + singleToDoubleQuoted(text[1:len(text)-1]) + `"`
 	}
 	t, _ := strconv.Unquote(text) // 去除引号
 	return t
+}
+
+// singleToDoubleQuoted 与 exp 包求值时的规则一致: \' 变为 ', 未转义的 " 变为 \", 其他转义序列原样保留
+func singleToDoubleQuoted(body string) string {
+	var sb strings.Builder
+	for i := 0; i < len(body); i++ {
+		c := body[i]
+		switch {
+		case c == '\\' && i+1 < len(body):
+			i++
+			if body[i] == '\'' {
+				sb.WriteByte('\'')
+			} else {
+				sb.WriteByte('\\')
+				sb.WriteByte(body[i])
+			}
+		case c == '"':
+			sb.WriteString(`\"`)
+		default:
+			sb.WriteByte(c)
+		}
+	}
+	return sb.String()
 }
 
 func buildHeader(ctx *Context) *translator.Entry {
